@@ -264,7 +264,9 @@ class C01(Check):
               'cut_at_boundary', 'cut_at_boundary_minus_1',
               'cut_at_boundary_plus_1', 'inspector_errored',
               'vhdx_size_found', 'vmdk_descriptor_parsed',
-              'end_region_slid', 'verdict_with_format_match')
+              'end_region_slid', 'verdict_with_format_match',
+              'cut_off_by_expected_inspector',
+              'expected_format_session_completed')
 
     def gen(self, st, tier, index, total):
         eng = engine_list(tier)
@@ -296,6 +298,19 @@ class C01(Check):
                 order = list(F.FORMATS)
                 orng.shuffle(order)
                 s['order'] = order
+            if mode != 'bare' and orng.random() < 0.25:
+                # the caller states what it expects: when that is what the
+                # content is, the session must conclude what every other
+                # session concludes
+                cands = []
+                if rec['layout'] == 'overlay':
+                    cands = [x if isinstance(x, str) else x[0]
+                             for x in rec['p'].get('sigs', [])]
+                else:
+                    cands = [rec['layout'].split('_')[0]]
+                cands = [c for c in cands if c in F.FORMATS] or ['raw']
+                s['expected'] = orng.choice(cands) if orng.random() < 0.85 \
+                    else orng.choice(F.FORMATS)
             if mode == 'wfile':
                 s['ask'] = core.weighted(orng, imgsim.ASK_MODES)
                 if orng.random() < 0.25:
@@ -413,11 +428,12 @@ class C01(Check):
                     isinstance(v['virtual_size'], int) and v['virtual_size']:
                 bump(pr, 'vhdx_size_found')
         # (a) cross-schedule agreement
-        base = results[0]
-        for j in range(1, len(results)):
+        b0 = next((j for j, r in enumerate(results) if not r.get('cut')), 0)
+        base = results[b0] if results else None
+        for j in range(b0 + 1, len(results)):
             d = self._diff(base, results[j])
             if d:
-                d['sched_a'] = 0
+                d['sched_a'] = b0
                 d['sched_b'] = j
                 viols.append({'cls': 'verdict_disagree', 'detail': d})
         # keep one violation per (class, inspector)
@@ -584,7 +600,8 @@ class C01(Check):
             r = imgsim.drive_wrapper(data, sizes, pers, order=s.get('order'),
                                      wq=qp if qp else None,
                                      ask=s.get('ask'), kind=s.get('kind'),
-                                     eof_read=s.get('eof_read', True))
+                                     eof_read=s.get('eof_read', True),
+                                     expected=s.get('expected'))
             # a wrapper that raises or drops bytes is C06's subject; here it
             # is simply part of what this schedule concluded, so that a
             # schedule-dependent failure shows up as a disagreement
@@ -592,14 +609,27 @@ class C01(Check):
                    r['region_bad'],
                    'wlevel': [r['format'], r['formats'], r['error'],
                               b''.join(r['got']) == data]}
+            if s.get('expected') and r['error'] and r['error'][0] != 'close':
+                # cut off by the expected format's inspector (C06's
+                # subject): where the cut falls is the reader's chunking, so
+                # what the other inspectors had seen by then is not a
+                # verdict on the content
+                out['cut'] = True
+                self._pr['cut_off_by_expected_inspector'] = \
+                    self._pr.get('cut_off_by_expected_inspector', 0) + 1
+            elif s.get('expected'):
+                self._pr['expected_format_session_completed'] = \
+                    self._pr.get('expected_format_session_completed', 0) + 1
         log.add('sched', s['mode'], s['fam'], s.get('ask'), s.get('kind'),
-                s.get('end'), s.get('eof_read', True), len(sizes),
+                s.get('end'), s.get('expected'), s.get('eof_read', True), len(sizes),
                 sorted((k, imgsim._vt(v)) for k, v in out['per'].items()),
                 out['wlevel'], len(out['region_bad']))
         return out
 
     @staticmethod
     def _diff(a, b):
+        if a.get('cut') or b.get('cut'):
+            return None
         for name in sorted(a['per']):
             va, vb = a['per'][name], b['per'].get(name)
             if vb is None:
